@@ -95,6 +95,30 @@ def judge (incr scratch : Tree) (walkIncr walkScratch : Array String) (apiIncr a
 
 /-! ## Replay of the real parser's log against `reuseGate` -/
 
+mutual
+  /-- Leaves with external tokens of a dump: (padding-start offset, total bytes, scanner state). -/
+  def extLeaves (t : Tree) (off : Nat) (acc : Array (Nat × Nat × String)) : Array (Nat × Nat × String) :=
+    match t with
+    | .mk d [] => if d.hasExternalTokens then acc.push (off, d.padding.bytes + d.size.bytes, extOf d) else acc
+    | .mk _ (k :: ks) => extLeavesL (k :: ks) off acc
+  def extLeavesL (ks : List Tree) (off : Nat) (acc : Array (Nat × Nat × String)) : Array (Nat × Nat × String) :=
+    match ks with
+    | [] => acc
+    | k :: rest => extLeavesL rest (off + k.totalBytes) (extLeaves k off acc)
+end
+
+/-- The parser's `last_external_token` when it stands at byte `pos`, read off the NEW tree: the last
+external-token leaf that lies entirely before `pos`.  `none` when a zero-width external token sits
+exactly at `pos` (it may or may not have been pushed yet). -/
+def parserExtAt (leaves : Array (Nat × Nat × String)) (pos : Nat) : Option String := Id.run do
+  let mut cur := ""
+  for (o, n, e) in leaves do
+    if o + n ≤ pos then
+      if n == 0 && o == pos then return none
+      cur := e
+    else break
+  return some cur
+
 structure RS where
   it : Iter := { stack := [] }
   pos : Nat := 0
@@ -108,6 +132,8 @@ structure RS where
   stateKnown : Bool := false  -- no reduce / breakdown since the last `process` line
   relexed : Bool := false     -- the reused look-ahead was dropped and a token lexed instead
   bdChecked : Nat := 0        -- decisions of breakdown_lookahead compared
+  newExt : Option (Array (Nat × Nat × String)) := none  -- external-token leaves of the (error-free) new tree
+  extChecked : Nat := 0
   maxPos : Nat := 0           -- furthest position any stack version has been seen at
   indexSkipped : Nat := 0     -- events explained only by `included_range_difference_index` having
                               -- skipped a difference that still lies ahead of the current version
@@ -144,6 +170,19 @@ def RS.gateEvent (s : RS) (L : Lang) (symName : Nat → String) (ev : Verdict) (
     else
       let off := s.it.byteOffset
       let extEq := ev != .extState
+      -- the scanner-state comparison of the gate, recomputed: iterator side from the port of
+      -- `reusable_node_advance`'s bookkeeping, parser side from the new tree
+      let s := match s.newExt, decide (off = s.pos) with
+        | some leaves, true =>
+          match parserExtAt leaves s.pos with
+          | some pe =>
+            let modelEq := s.it.lastExt == pe
+            let relevant := ev != Verdict.before && ev != Verdict.past
+            if relevant && modelEq != extEq then
+              s.bad s!"parser logged {ev.name} for `{name}` at offset {off}: external-scanner states {if extEq then "equal" else "different"} in the log, {if modelEq then "equal" else "different"} by the model (iterator `{s.it.lastExt}`, parser `{pe}`)"
+            else if relevant then { s with extChecked := s.extChecked + 1 } else s
+          | none => s
+        | _, _ => s
       let ld := lineDiffOf s.colFix s.diffs.toList t off s.col
       let s := { s with gate := s.gate + 1
                         coldepSeen := s.coldepSeen || t.data.dependsOnColumn }
